@@ -193,7 +193,18 @@ pub fn oracle<E: Engine>(_ctx: &RunCtx, spec: &HostileSpec, log: &mut CaseLog) -
                 _ => u64::MAX,
             });
         }
-        let st = match RangeStatement::init(t.params.clone(), t.commitments.clone(), promises, t.seed) {
+        // hostile constructor arguments: an empty / short promise vector must be refused by the validating constructor; if it
+        // is not, whatever statement comes out is handed to the verifier like any other
+        match hm.bulk % 7 {
+            0 => promises.clear(),
+            1 if promises.len() > 1 => {
+                promises.pop();
+            },
+            _ => {},
+        }
+        let st = match guarded(|| RangeStatement::init(t.params.clone(), t.commitments.clone(), promises, t.seed))
+            .map_err(|e| format!("{} in RangeStatement::init", e))?
+        {
             Ok(s) => s,
             Err(_) => t.st.clone(),
         };
